@@ -331,7 +331,33 @@ def run(R):
             continue
         cfn = P.fns[cks[0]]
         if not re.search(r"&(alloc::string::String|str)\b", " ".join(cfn.local_ty(a) for a in range(1, cfn.arg_count + 1))):
-            continue        # a closure over the indices alone (`(0..n).map(|i| ..)`) pairs no name
+            # a closure over the indices alone (`(0..n).map(|i| ..)`): a name it uses must be `result_row.columns[i]` with the same,
+            # unmodified i, and the range must be 0..result_row.columns.len()
+            nidx = [c for c in chv.calls if short(c.name).endswith("Index<I>>::index") and (c.func.get("res_targs") or [""])[0] == "alloc::string::String"]
+            if nidx:
+                okn = all("columns" in F.source_fields(chv, c.args[0], depth=8) and
+                          (lambda os_: bool(os_) and all(o.kind in ("arg", "place") for o in os_) and any(o.kind == "arg" for o in os_))
+                          (F.origins(chv, c.args[1], depth=8, through_calls=False)) for c in nidx)
+                rng_ok = False
+                for o in F.origins(f, c0.args[0], depth=10):
+                    if o.kind == "aggr" and o.place is not None:
+                        for _, st in F._assign_defs(f).get(o.place["l"], []):
+                            rv = st["rv"]
+                            if rv["k"] == "aggr" and (rv.get("adt") or "").endswith("ops::range::Range") and len(rv["ops"]) == 2 and \
+                                    rv["ops"][0].get("k") == "const" and rv["ops"][0].get("int") == 0:
+                                for o2 in F.origins(f, rv["ops"][1], depth=8, through_calls=False) if rv["ops"][1].get("k") in ("copy", "move") else []:
+                                    if o2.kind == "call" and short(o2.call.name) == "alloc::vec::Vec::len" and \
+                                            F.source_fields(f, o2.call.args[0], depth=8)[-1:] == ["columns"] and \
+                                            "alloc::string::String" in " ".join(o2.call.func.get("res_targs") or o2.call.targs or []):
+                                        rng_ok = True
+                n_names += 1
+                key = "print|%s" % cfn.spath.split("::")[-1]
+                if okn and rng_ok:
+                    R.ok("C17.names", key, "name = result_row.columns[i] for i in 0..result_row.columns.len()", c0.loc())
+                else:
+                    R.violation("C17.names", key + "|source", "the names of this format are indexed out of something else than ResultRow.columns "
+                                "by the row's own index over all columns (index clean: %s, range 0..columns.len(): %s)" % (okn, rng_ok), [c0.loc()])
+            continue
         work, seen_o, leaves = [c0.args[0]], set(), []
         while work and len(seen_o) < 60:
             op = work.pop()
